@@ -185,15 +185,19 @@ P("C04", ["LC.Props.C04", "LC.Props.C09Footprint"], [MATCH, v2run("TestVerifC04"
    "DiffSpec.crossOnly: go-diff depends on its inputs only through their equality pattern (hypothesis hd of match_equivariant)",
    "tracing and slice aliasing are run-time facts covered by the harness only"], regen=ALLGEN + ["v2footprint"])
 
-P("C05", ["LC.Props.C05"], [TOK, v2run("TestVerifC05")],
+P("C05", ["LC.Props.C05", "LC.Props.C05Quotes"], [TOK, v2run("TestVerifC05")],
   "metamorphic: real Match before/after each presentation transform (upper/random ASCII case, indentation, trailing blanks, "
   "CRLF, tabs, double spaces, no-break/em/thin/ideographic spaces, blank lines, comment prefixes, Unicode hyphens/quotes) on corpus documents alone / planted / "
   "edited and scenario files; inputs with a hyphen before a line break are exempt as the property says. distinct = "
   "(transform, input); non-trivial = the untransformed input has matches",
   "step_congr/tokenize_congr (equal scan signatures are interchangeable), skip_inert/insert_inert, crlf_equiv, "
   "tokenize_from_clean/blank_line_shift hold for every environment; ascii_case_sig, dash_sig, blank_sig, "
-  "decoration_not_starter, goEnv_wf discharge the table facts on the regenerated Unicode/punctuation tables by kernel evaluation.",
-  ["quotes: typographic quotes are covered by the oracle only (they pass through the entity decoder and the notice regexes)"],
+  "decoration_not_starter, goEnv_wf discharge the table facts on the regenerated Unicode/punctuation tables by kernel evaluation; "
+  "quotes_invariant (LC/Props/C05Quotes): the quotes clause at tokenizer level.",
+  ["quotes_invariant: exchanging quote-like runes (ASCII and typographic quotes) for one another leaves tokenizeRunes unchanged, for every "
+   "environment in which they are inert (QuoteLike); quotes_invariant_go: for the regenerated Go tables (goEnv_quoteLike, goEnv_listMarker_qeq, "
+   "goEnv_ignorable_qeq are proved) — one hypothesis stays an assumption: the entity decoder does not tell two quote-like runes apart (hU), "
+   "monitored by the tok correspondence on quoted inputs"],
   regen=ALLGEN)
 
 P("C06", ["LC.Props.C06"], [TOK, v2run("TestVerifC06")],
@@ -303,7 +307,8 @@ P("C13", ["LC.Props.C13", "LC.Props.C17", "LC.Props.C13Uniq"],
   ["DiffSpec.equalInputs for confidence 1.0", "token-aligned copies (the property's reading, DESIGN §6 C13)"], trusted=V1_TB, regen=["unicode"])
 
 P("C14", ["LC.Props.C14"],
-  [rootrun("stringclassifier", "stringclassifier", "overlay/stringclassifier/zz_verif_test.go", "TestVerifC14", race=True, timeout=1800)],
+  [rootrun("stringclassifier", "stringclassifier", "overlay/stringclassifier/zz_verif_test.go", "TestVerifC14", race=True, timeout=1800),
+   rootrun("serializer", "serializer", "overlay/serializer/zz_verif_test.go", "TestVerifC14License", race=True, timeout=1800)],
   "8/48 goroutines x rounds of concurrent MultipleMatch / NearestMatch / AddValue on a freshly populated classifier (lazy "
   "search sets still nil) under the race detector, results compared with a sequentially used twin. distinct = round; "
   "non-trivial = all",
